@@ -185,12 +185,15 @@ class World:
 
     def __init__(self, kind: str, db: Database, bulk_policy: Optional[BulkPolicy] = None,
                  clock: Optional[Callable[[], int]] = None, boots: int = 7,
-                 context_name: bytes = b"", engine_id: bytes = b"") -> None:
+                 context_name: bytes = b"", engine_id: bytes = b"", pin_ids: bool = True,
+                 credentials: Any = None) -> None:
         import warnings
         warnings.simplefilter("ignore")
         from puresnmp.api.raw import Client
         self.kind = kind
-        self.rids = RequestIds().install()
+        self.rids = RequestIds()
+        if pin_ids:
+            self.rids.install()
         version = {"v1": 0, "v2c": 1}.get(kind, 3)
         self.agent = Agent(db, version=version if version != 3 else 1, bulk_policy=bulk_policy)
         self.engine: Optional[rusm.Engine] = None
@@ -203,7 +206,7 @@ class World:
         self.exchanges: List[Tuple[bytes, bytes]] = []
         self.flags: set = set()
         self.sender_kwargs: List[dict] = []
-        self.client = Client("192.0.2.1", credentials_for(kind), sender=tramp.sender,
+        self.client = Client("192.0.2.1", credentials or credentials_for(kind), sender=tramp.sender,
                              context_name=context_name, engine_id=engine_id)
 
     def answer(self, req: tramp.Request) -> bytes:
